@@ -497,6 +497,29 @@ func genStream(r *vh.Run, im *impl, do func(string) string) {
 		prevMaj = maj
 		r.Distinct(fmt.Sprintf("n=%d mode=%d kind=%s out=%s maj=%v", n, mode, kind, out, maj != "-"))
 	}
+	// directed: once a block has its majority, a validator that voted for something else equivocates with a
+	// validly signed vote for the majority block, and that vote is delivered again (gossip does that)
+	if prevMaj != "" && prevMaj != "-" {
+		mb := strings.Replace(prevMaj, "/", " ", -1)
+		for i := 0; i < n; i++ {
+			if len(led.valid[i]) == 0 || led.valid[i][mb] {
+				continue
+			}
+			op := fmt.Sprintf("vote %d %s %d %d %d %s %d.0", i, addr(i), h, rd, t, mb, i)
+			for rep := 0; rep < 2; rep++ {
+				history = append(history, op)
+				res := do(op)
+				r.Count("op.equivocate-for-majority")
+				if strings.Fields(res)[0] == "panic" {
+					ops := append([]string{fmt.Sprintf("new %d %d %d%s", h, rd, t, vs)}, history...)
+					r.Fail(vh.Failure{Class: "addvote-panics-on-redelivered-vote", Detail: "VoteSet.AddVote panics when a validly signed conflicting vote for the block that has the majority is delivered a second time", Ops: ops, Got: res, Want: "a duplicate"})
+					return
+				}
+			}
+			led.valid[i][mb] = true
+			break
+		}
+	}
 	if t == 2 {
 		res := do("commit")
 		if res != "nomaj" && res != "ok" {
